@@ -11,7 +11,11 @@ use std::io::{BufRead, Write};
 
 fn main() {
     // contract panics abort the transaction on chain; here they are caught per case — keep them quiet
-    std::panic::set_hook(Box::new(|_| {}));
+    std::panic::set_hook(Box::new(|info| {
+        if !fnfam::GUARDED.load(std::sync::atomic::Ordering::SeqCst) {
+            eprintln!("harness bug (panic outside the implementation): {info}");
+        }
+    }));
     let args: Vec<String> = std::env::args().collect();
     let stdout = std::io::stdout();
     let mut w = std::io::BufWriter::with_capacity(1 << 20, stdout.lock());
